@@ -43,6 +43,9 @@ def make_msg(ser, n, tag=0):
     return best
 
 
+BAD_URI = "com.my app.topic#1"
+
+
 def cut(data, cuts):
     """split data at the given sorted fractions (list of floats in 0..1) or absolute positions"""
     pos = sorted(set(int(c * len(data)) if isinstance(c, float) else min(int(c), len(data)) for c in cuts))
@@ -64,6 +67,19 @@ def run_half(sc):
     maxsize = (2 ** own_exp) if (own_exp and fw.NAME == "tx") else None
     if sc.get("own_size") and fw.NAME == "tx":          # a configured maximum that is not a power of two
         maxsize = sc["own_size"]
+    if sc.get("openfails"):
+        # the session's onOpen raises once the handshake is complete: the transport is given up, nothing escapes
+        D.StubSession.open_raises = True
+        try:
+            p, t = D.rs_proto(role, sessions, sup=(serid,), req=serid, maxsize=maxsize)
+            esc = D.feed_reactor(p, t, bytes([0x7F, (sc["peer_exp"] << 4) | serid, 0, 0]))
+            fw.settle()
+        finally:
+            D.StubSession.open_raises = False
+        log.append(dict(ev="link_openfails", role=role, obs=dict(esc=esc, attached=sum(s.opens for s in sessions), dropped=D.dropped(t))))
+        D.tell_lost(p, t)
+        fw.settle()
+        return log
     p, t = D.rs_proto(role, sessions, sup=(serid,), req=serid, maxsize=maxsize)
     ser = D.SER_BY_RSID[serid]()
     my_exp = own_exp if (own_exp and fw.NAME == "tx") else 24
@@ -139,9 +155,12 @@ def run_half(sc):
             elif kind == "outofphase":
                 s.raise_on = "protocol"
                 data = struct.pack("!L", len(payload)) + payload
-            elif kind == "sessionraises":
-                s.raise_on = "internal"
+            elif kind in ("sessionraises", "sessionpayload", "sessionser"):
+                s.raise_on = {"sessionraises": "internal", "sessionpayload": "payload", "sessionser": "ser"}[kind]
                 data = struct.pack("!L", len(payload)) + payload
+            elif kind == "baduri":
+                g = type(ser)()._serializer.serialize([16, 777, {}, BAD_URI])        # well-formed, but the topic is no URI
+                data = struct.pack("!L", len(g)) + g
             escs = []
             for ch in cut(data, [rng.random() for _ in range(rng.randrange(0, 3))]):
                 escs.append(D.feed_reactor(p, t, ch))
@@ -264,8 +283,10 @@ def run_pair(sc):
             payload, isbin = ser.serialize(m)
             if k == "outofphase":
                 tsess[0].raise_on = "protocol"
-            elif k == "sessionraises":
-                tsess[0].raise_on = "internal"
+            elif k in ("sessionraises", "sessionpayload", "sessionser"):
+                tsess[0].raise_on = {"sessionraises": "internal", "sessionpayload": "payload", "sessionser": "ser"}[k]
+            elif k == "baduri":
+                payload = type(ser)()._serializer.serialize([16, 777, {}, BAD_URI])
             elif k == "garbage":
                 payload = GARBAGE[ser.SERIALIZER_ID.split(".")[0]]
             elif k == "truncated":
